@@ -89,8 +89,12 @@ def mc_configs(thorough):
     }
     if thorough:
         c.update({
-            "mc-3x-msg-scopes": (cfg(msgs=3, ips=2, srcs=2, dsts=1, nall="0,1,2", nip="0,1", nsrc="0,1",
-                                     ndst="0"), 4),
+            "mc-3x-msg-scopes": (cfg(msgs=3, ips=2, srcs=2, dsts=1, nall="0,1,2", nip="0,1,2", nsrc="0,1,2",
+                                     ndst="0"), 5),
+            "mc-3x-remote": (cfg(msgs=3, ips=1, srcs=2, dsts=2, nall="0,1", nip="0", nsrc="0,1", ndst="1,2",
+                                 remote=True), 5),
+            "mc-3x-endpoint": (cfg(msgs=3, ips=2, srcs=2, dsts=1, nall="0,1,2", nip="0,1", nsrc="0,1,2", ndst="0",
+                                   endp=True), 5),
             "mc-2x-N012": (cfg(msgs=2, ips=2, srcs=2, dsts=2, nall="0,1,2", nip="0,1,2", nsrc="0,1,2",
                                ndst="0,1,2"), 4),
             "mc-3x-ip2": (cfg(msgs=3, ips=2, srcs=1, dsts=1, nall="0,2", nip="2", nsrc="0", ndst="0"), 3),
@@ -240,7 +244,7 @@ def run(ctx, replay):
     thorough = ctx.tier == "thorough"
     findings = load_findings()
     odev = open_devs(findings, "api")
-    ex = cf.ThreadPoolExecutor(max_workers=9)
+    ex = cf.ThreadPoolExecutor(max_workers=12)
 
     mc_futs, asis_futs = {}, {}
 
@@ -280,8 +284,14 @@ def run(ctx, replay):
                                  ndst="0", mb=str(REAL_MB), maxops=2, eager=True, gen=True, endp=True,
                                  tail=GEN_TAIL, strings=True), n_endp, 60),
         }
+        if thorough:
+            # long histories: up to 3 x 21 = 63 deliveries
+            gens["gen-long"] = (cfg(msgs=3, ips=3, srcs=2, dsts=2, nall="1,2", nip="0,1,2", nsrc="0,1,2",
+                                    ndst="0,1,2", mb=str(REAL_MB), maxops=21, eager=True, gen=True,
+                                    tail=GEN_TAIL, strings=True), 60, 700)
         gfut = {k: ex.submit(ctx.tlc, "Limits", None, name=k, workers=1, timeout=900,
-                             simulate=max(40, n // 2), depth=d, cfg_text=t) for k, (t, n, d) in gens.items()}
+                             simulate=max(40, n // 2) if k != "gen-long" else 30, depth=d, cfg_text=t)
+                for k, (t, n, d) in gens.items()}
         # ---- (T) exhaustive model checking of the design, in the background -----------
         for name, (text, w) in mc_configs(thorough).items():
             mc_futs[name] = ex.submit(ctx.tlc, "LimitsMC", None, name=name, workers=w,
@@ -301,6 +311,8 @@ def run(ctx, replay):
             got = dedup(behaviours_from(g))
             if k == "gen-fill":
                 got = [b for b in got if any(s["a"] == "Fill" for s in b["hist"])]
+            if k == "gen-long":
+                got = sorted(got, key=lambda b: -len(b["hist"]))[:4 * n]
             # prefer histories in which callers meet, keep a few trivial ones
             hot = [b for b in got if interesting(b)]
             cold = [b for b in got if not interesting(b)]
@@ -432,8 +444,13 @@ def run(ctx, replay):
     ctx.cov["exhaustive"] = False
     ctx.assumptions += [
         "API level: the harness is the caller and keeps the callers' discipline (release only what a take "
-        "returned ok for, domains before the message); the endpoint and the remote target as callers are "
-        "covered by the deviations MailRejectNoRelease / ReleaseOtherKey in the model only",
+        "returned ok for, domains before the message)",
+        "remote level: real remote.Target deliveries (verif constructor) over an in-memory resolver and net.Pipe "
+        "connections to a minimal scripted SMTP server; no TLS, no MX policies; Start/AddRcpt/Abort are observed as "
+        "TakeMsg/TakeDest/End",
+        "endpoint level: real endpoint/smtp sessions created without a socket (verif export) on an endpoint built "
+        "from configuration nodes; Mail(+first Rcpt when deferred) is observed as TakeMsg, RSET/close/DATA as "
+        "ReleaseMsg; after DATA the harness issues the RSET go-smtp would issue",
         "time is the fake clock of a testing/synctest bubble (Tick = 2.5 s, Minute = 61 s); blocked = durably "
         "blocked after synctest.Wait()",
         "permits in use are read through the verif export accessors (length of Semaphore.c per bucket)",
@@ -454,9 +471,12 @@ META = {
             "MaxBuckets+2, with time-outs wherever a call waits, and checks the C11 predicates in every state; the "
             "same predicates are evaluated by TLC over traces recorded from the real limits.Group (built from "
             "configuration nodes) driven with TLC-generated histories, including histories with 20011 distinct keys "
-            "against the real table capacity of 20010, and a probe after quiescence that N permits can be acquired "
-            "again and the N+1st waits.",
-    "note": "API level (limits.Group as used by endpoint/smtp and target/remote); callers are the harness; time is the "
-            "fake clock of a synctest bubble; trusted: TLC, the harness, Go toolchain, the verif accessors.",
+            "against the real table capacity of 20010, a probe after quiescence that N permits can be acquired "
+            "again and the N+1st waits, and histories whose callers are real remote deliveries and real SMTP sessions.",
+    "note": "Three levels: limits.Group driven directly (API), through real remote.Target deliveries against an in-memory "
+            "scripted SMTP server (MAIL refusal by the next hop), and through real endpoint/smtp sessions without a "
+            "socket (sender refusal by the pipeline, RSET/close/DATA endings, non-normalised sender spelling). Time is "
+            "the fake clock of a synctest bubble; rate limiters are not exercised; trusted: TLC, the harness, Go "
+            "toolchain, the verif accessors.",
     "design_ref": "DESIGN.md section 5 C11",
 }
